@@ -106,8 +106,9 @@ pub fn thread_cpu_us() -> u64 {
     ts.tv_sec as u64 * 1_000_000 + ts.tv_nsec as u64 / 1000
 }
 
-pub const SCALING_FAMILIES: [&str; 9] = [
+pub const SCALING_FAMILIES: [&str; 10] = [
     "forward_jumps", "backward_jumps", "labels", "macro_uses", "data_bytes", "procedures", "prints", "comment_lines", "undefined_then_error",
+    "mem_dump_bytes",
 ];
 
 /// a program of "size n" of one family; cost must grow in proportion to n
@@ -163,6 +164,11 @@ fn scaling_program(family: &str, n: usize) -> String {
             for _ in 0..n {
                 t.push_str("print flags\n");
             }
+        }
+        "mem_dump_bytes" => {
+            // here the size is the length of what one statement prints: 14 n bytes of memory
+            // (n = 18 000: a quarter of the memory against nearly all of it)
+            t.push_str(&format!("start:\nmov byte [5], 7\nprint mem 0 -> {}\n", (14 * n).min(1 << 20) - 1));
         }
         "comment_lines" => {
             t.push_str("start:\n");
@@ -231,6 +237,10 @@ pub fn memory_scaling(thorough: bool) -> (serde_json::Value, Vec<(String, String
     };
     table.insert("empty_program_kib".to_owned(), serde_json::json!(base));
     for family in SCALING_FAMILIES.iter() {
+        if *family == "mem_dump_bytes" {
+            // (the input is three lines; what grows is the recorded history, which is the harness' memory)
+            continue;
+        }
         let n = match (*family, thorough) {
             ("macro_uses", _) => 250,
             ("prints", _) => 350,
@@ -269,6 +279,7 @@ fn scaling_case(seed: u64, run: u64, k: usize, thorough: bool) -> Case {
         ("macro_uses", true) => 250,
         ("prints", false) => 300,
         ("prints", true) => 350,
+        ("mem_dump_bytes", _) => 18_000,
         // (quick: 4n = 70 000 lines, so that the big one also passes 65 535 instructions / labels / bytes)
         (_, false) => 17_500,
         (_, true) => 100_000,
